@@ -74,12 +74,16 @@ func loadSpecs(db *SpecDB, pkgs []*packages.Package, repo, verif string) []strin
 		}
 		dir := filepath.Dir(p.GoFiles[0])
 		f := filepath.Join(dir, "verif_contracts.go")
-		if _, err := os.Stat(f); err != nil {
-			rel, _ := filepath.Rel(repo, dir)
-			f = filepath.Join(verif, "contracts", strings.ReplaceAll(rel, "/", "__")+".go")
-			if _, err := os.Stat(f); err != nil {
-				continue
-			}
+		rel, _ := filepath.Rel(repo, dir)
+		mirror := filepath.Join(verif, "contracts", strings.ReplaceAll(rel, "/", "__")+".go")
+		_, errRepo := os.Stat(f)
+		_, errMirror := os.Stat(mirror)
+		switch {
+		case errMirror == nil && (errRepo != nil || os.Getenv("VCGO_DEV") != ""):
+			// the committed mirror is used when the tree carries no contract file (or in development)
+			f = mirror
+		case errRepo != nil:
+			continue
 		}
 		must(db.loadFile(f, p.PkgPath))
 		used = append(used, f)
